@@ -3,6 +3,8 @@
 Used as a GenProg palette (C07, C08, C11, C12, C15) and for coverage accounting.  Jump targets refer to the fixed
 tail lines (900, 910 subroutine) every assembled program gets.
 """
+import re
+
 from harness.c04 import FORMS as DEVICE_FORMS, instantiate, nslots
 
 I, J, K = 1, 2, 3
@@ -23,6 +25,8 @@ CONTROL = [
     {"text": "IF INT(A)=1 THEN PRINT \"Y\"", "last": True, "grp": 2},
     {"text": "FOR I=1 TO 2", "open": [I], "grp": 3}, {"text": "FOR I=A TO B+2 STEP 2", "open": [I], "grp": 3},
     {"text": "FOR J=2 TO 1 STEP -1", "open": [J], "grp": 3},
+    {"text": "FOR I=INT(A) TO INT(B)*2 STEP INT(C)", "open": [I], "grp": 3},
+    {"text": "FOR J=VAL(A$) TO LEN(STR$(B)) STEP BUTTON(0)*2", "open": [J], "grp": 3},
     {"text": "NEXT", "close": [0]}, {"text": "NEXT I", "close": [I]}, {"text": "NEXT J", "close": [J]},
     {"text": "NEXT J,I", "close": [J, I]},
     {"text": "END", "last": True, "grp": 5}, {"text": "STOP", "last": True, "grp": 5}, {"text": "RETURN", "last": True, "grp": 5},
@@ -53,6 +57,8 @@ def device_statements():
         out.append(instantiate(form, ["var"] * n, "var").replace("S$", "A$"))
         if n:
             out.append(instantiate(form, ["lit"] * n, "lit"))
+            # (a lost operand must leave a hole: INT(A)*2, not INT(A)+1 whose remains "+ 1" still parse)
+            out.append(re.sub(r"INT\((\w)\)\+\d", r"INT(\1)*2", instantiate(form, ["conv"] * n, "conv").replace("S$", "A$")))
     seen = []
     for s in out:
         if s not in seen:
